@@ -49,6 +49,8 @@ parser { h(); b += /[xy]+/; ","; a = "z"; delete b; b += [k + 72]; e = Z; if f &
 parser { loop { case { "a" -> { big += [65]; t256 += [66]; t257 += [67]; } "b" -> { k = [big.len + t256.len + t257.len]; h(); } /c+/ -> { try { big += "x"; } catch (outofspace) { delete big; k = [k + 1]; } } } } }"""),
     ("feat-highbyte", [], """out str[4] t; out int m = 0; hook h;
 parser { t += /./; if t[0] > 127 { m = 1; } elif t[0] == 65 { m = 2; } m = [m + t[0]]; h(); "!"; }"""),
+    ("feat-word", ["-O2"], """out str[8] t; out int m = 0;
+parser { t += /[0-9A-Za-z_]+/; " "; /[0-9A-Fa-f]+/; m = 1; ";"; /[\\-0-9.]+/; "!"; }"""),
     ("feat-signed", [], """out int{signed, size 1} a = -1; out int{signed, size 2} b = 0; out int{size 8} c = 0; out int{unsigned, size 4} d = 0;
 parser { foreach { /./ ; } do { a = [a - 100]; b = [b + a * 2]; d = [d - 1]; c = [c * 3 + d]; } }"""),
 ]
